@@ -144,6 +144,10 @@ pub fn check_edit(t: &Table, e: &TypeEntry, v: &Val, path: &[(usize, usize)], ed
     }
     let swallowed = levels(&gs).iter().find(|(p, _)| p == path).unwrap().1;
     let Some((edited, tampered)) = apply(&gs, path, edit) else { return Ok(()) };
+    // the edit must not push a container beyond what its length prefix can announce
+    if !fits(&edited) {
+        return Ok(());
+    }
     let Some(bytes) = assemble_top(l, &edited) else { return Ok(()) };
     let Some(canon) = assemble_top(l, &gs) else { return Ok(()) };
     let kind = match edit {
@@ -197,8 +201,15 @@ pub fn check_edit(t: &Table, e: &TypeEntry, v: &Val, path: &[(usize, usize)], ed
             Err(_) => Ok(()),
             Ok((d, rest)) => {
                 let body = assemble(&edited).len();
-                // a duplicate / removal below a Vec element fails that element: the vector ends in front of it
-                let elem_cut = if matches!(edit, Edit::Foreign { .. }) { None } else { swallowing_step(&edited, path).0 };
+                // Where does decoding stop? A foreign tag stops its level right there if what precedes it is complete;
+                // otherwise (and for a duplicate / removal) the level fails, and a failure below a Vec element ends that
+                // vector in front of the element ("failure = end of vector"), possibly cascading outwards.
+                let mut cuts: Vec<Option<usize>> = vec![];
+                if matches!(edit, Edit::Foreign { .. }) {
+                    cuts.push(None);
+                }
+                cuts.extend(swallowing_steps(&edited, path).into_iter().rev().map(Some));
+                let elem_cut = cuts.iter().copied().find(|c| prefix_value(t, l, &edited, path, tampered, *c).is_some()).unwrap_or(cuts.first().copied().flatten());
                 let off = hdr_len(l, body)
                     + match elem_cut {
                         None => offset_of(&edited, path, tampered),
@@ -209,7 +220,9 @@ pub fn check_edit(t: &Table, e: &TypeEntry, v: &Val, path: &[(usize, usize)], ed
                     Some(want) if *d == want && *rest == want_rest => Ok(()),
                     want => Err(Violation::new(
                         "edit",
-                        format!("C13 type={ty} edit={kind} depth={depth} kind=disturbs-decoded-fields"),
+                        // unconsumed bytes of a nested container are handed to the enclosing level, where a positional
+                        // field parses them by position (only reachable with layouts the shipped packets never use)
+                        if matches!(edit, Edit::Foreign { .. }) && positional_follows_on_path(&edited, path) { format!("C13 type={ty} edit={kind} depth={depth} kind=foreign-tag-in-container-reparsed-by-positional-sibling") } else { format!("C13 type={ty} edit={kind} depth={depth} kind=disturbs-decoded-fields") },
                         format!("tampered group at byte {off} of {}\n  result {}\n  expected an error, or the value of the preceding bytes {} with {want_rest} bytes handed back", clip(&hex(&bytes), 300), show(&got), want.map(|w| clip(&w, 400)).unwrap_or("<none: prefix is not a valid packet>".into())),
                         input,
                     )),
@@ -263,27 +276,39 @@ pub fn edits_of(t: &Table, name: &str, v: &Val, max_perm_full: usize, sampled_pe
     let mut out = vec![];
     for (path, _) in levels(&gs) {
         let lv = level(&gs, &path);
-        let tg = present_tagged(lv);
-        let n = tg.len();
-        if n == 0 && !lv.iter().any(|g| g.tag.is_some()) {
+        let mut tg = present_tagged(lv);
+        if tg.is_empty() && !lv.iter().any(|g| g.tag.is_some()) {
             continue;
         }
+        // a tagged field without length prefix and without intrinsic size consumes the rest of its level: it is only
+        // decodable in last position (grammar rule), so it stays there and nothing is placed behind it
+        let greedy_tail = tg.last().map(|gi| lv[*gi].elems.iter().any(|e| e.len == Len::None) && !matches!(lv[*gi].enc, Enc::Le(_) | Enc::Be(_))).unwrap_or(false);
+        if greedy_tail {
+            tg.pop();
+        }
+        let n = tg.len();
         // an absent positional optional (or a positional vector) in front of the tagged part would read a moved /
         // foreign group as that field: such inputs are outside the canonical domain (DESIGN.md 5.1)
         let ambiguous = lv.iter().any(|g| g.tag.is_none() && ((g.card == Card::Opt && g.elems.is_empty()) || g.card == Card::Vec));
+        let fix = |mut p: Vec<usize>| {
+            if greedy_tail {
+                p.push(n);
+            }
+            p
+        };
         if n >= 2 {
             if n <= max_perm_full {
                 for p in all_perms(n) {
                     if p.iter().enumerate().any(|(i, k)| i != *k) {
-                        out.push((path.clone(), Edit::Permute(p)));
+                        out.push((path.clone(), Edit::Permute(fix(p))));
                     }
                 }
             } else {
                 let mut rev: Vec<usize> = (0..n).collect();
                 rev.reverse();
-                out.push((path.clone(), Edit::Permute(rev)));
+                out.push((path.clone(), Edit::Permute(fix(rev))));
                 for k in 0..sampled_perms {
-                    out.push((path.clone(), Edit::Permute(perm(n, h ^ k as u64))));
+                    out.push((path.clone(), Edit::Permute(fix(perm(n, h ^ k as u64)))));
                 }
             }
         }
